@@ -20,7 +20,7 @@ func init() {
 				"Assumption A1: closing a non-blocking *os.File wakes a blocked Read with os.ErrClosed. Not decided: descriptor and goroutine counts themselves.",
 			Rule:        "one obligation per (error return, earlier acquisition) pair, per closing site, per reader-loop fact, per go statement",
 			Assumptions: []string{"go/types + go/ssa", "A1 (Go runtime poller wakes a blocked Read when the file is closed)", "close(2) of the inotify descriptor releases all its kernel watches"},
-			MinObl:      3,
+			MinObl:      11,
 		},
 		Configs: tiered(linuxQuick, concat(linuxAll, kqueueQuick, fenQuick, windowsQuick)),
 		Run:     runC13,
